@@ -9,7 +9,10 @@ m=json.load(open(sys.argv[1]))
 print(m.get('demo_dest','?'), m.get('demo_pkg','?'), m.get('demo_run','?'))
 PY
 )
-demo=$(ls "$d" | grep -E '\.go(\.txt)?$' | head -1)
+demo=$(basename "$dest").txt
+[ -f "$d/$demo" ] || demo=$(ls "$d" | grep -E '\.go(\.txt)?$' | head -1)
+# a demonstration that needs the race detector says so in its -run text or in demo.md
+if grep -qi -- "-race" "$d/demo.md" 2>/dev/null; then export SEED_VERIFY_RACE=1; else unset SEED_VERIFY_RACE; fi
 echo "== $p demo=$demo dest=$dest pkg=$pkg run=$run"
 /verif/tools_seed_verify.sh "$d" "$demo" "$dest" "$pkg" "$run"
 /verif/tools_seed_eval.sh "$p" "$d" "$@" 2>&1 | grep -v "^suite with patch" | tail -3
